@@ -42,9 +42,9 @@ theorem follow_sepF {w : List Nat} (hne : w ≠ []) (hw : ∀ c ∈ w, isWs c = 
 
 theorem lex_termW (hT : TextOK T L S) (uni : Bool) {sepB : List Nat → Nat → List Nat} {sepF : List Nat → List Nat}
     (hsep : SepOK sepB sepF) : ∀ t : Skel, t.WF T L → t.NamesOK S → ∀ p : List Nat,
-    Steps S (printTextW T L uni sepB sepF p t) (printSkel T L uni t) Follow ∧
-      ∀ rest, TextStart T (printTextW T L uni sepB sepF p t ++ rest) := by
-  obtain ⟨h1, hdot, hlp, hrp, hdotT, hif, hthen, helse, hsafeL, hsafeR, hsafeD, _, hbin, hun, hbind⟩ := hT
+    Steps S (printTextW T L S uni sepB sepF p t) (printSkel T L uni t) Follow ∧
+      ∀ rest, TextStart T (printTextW T L S uni sepB sepF p t ++ rest) := by
+  obtain ⟨h1, hdot, hlp, hrp, hdotT, hif, hthen, helse, hsafeL, hsafeR, hsafeD, _, hbin, hun, hbind, hTy, hdc⟩ := hT
   have hB := fun p i => hsep.1 p i
   have hF := fun p => hsep.2 p
   have wrapL := fun {txt : List Nat} {toks : List Tok} (ht : Steps S txt toks Follow) (hs : ∀ rest, TextStart T (txt ++ rest)) (b : Bool) =>
@@ -71,7 +71,7 @@ theorem lex_termW (hT : TextOK T L S) (uni : Bool) {sepB : List Nat → Nat → 
     refine ⟨?_, ?_⟩
     · exact Steps.append wf.1 (Steps.cons_sepB (hB p 0) wa.1) (fun rest _ => follow_blank _)
     · intro rest
-      have := wf.2 (32 :: (sepB p 0 ++ wrapT (brA T a.cls) (printTextW T L uni sepB sepF (1 :: p) a)) ++ rest)
+      have := wf.2 (32 :: (sepB p 0 ++ wrapT (brA T a.cls) (printTextW T L S uni sepB sepF (1 :: p) a)) ++ rest)
       simpa [printTextW, List.append_assoc] using this
   | bin o l r ihl ihr =>
     intro hw hn p
@@ -88,7 +88,7 @@ theorem lex_termW (hT : TextOK T L S) (uni : Bool) {sepB : List Nat → Nat → 
       simpa [printTextW, printSkel, List.append_assoc] using h3
     · intro rest
       have := wl.2 (32 :: (sepB p 0 ++ (T.spellTxt uni o ++ 32 :: (sepB p 1 ++
-        wrapT (brR T o r.cls) (printTextW T L uni sepB sepF (1 :: p) r)))) ++ rest)
+        wrapT (brR T o r.cls) (printTextW T L S uni sepB sepF (1 :: p) r)))) ++ rest)
       simpa [printTextW, List.append_assoc] using this
   | un o a iha =>
     intro hw hn p
@@ -129,7 +129,7 @@ theorem lex_termW (hT : TextOK T L S) (uni : Bool) {sepB : List Nat → Nat → 
           exact Or.inr (Or.inr ⟨rfl, c, _, rfl, hxi.1⟩))
       simpa [printTextW, printSkel] using h1'
     · intro rest
-      have := ts_binder (T := T) (binderTxt_mem hasc uni) (x ++ 46 :: 32 :: printTextW T L uni sepB sepF (0 :: p) body ++ rest)
+      have := ts_binder (T := T) (binderTxt_mem hasc uni) (x ++ 46 :: 32 :: printTextW T L S uni sepB sepF (0 :: p) body ++ rest)
       simpa [printTextW, List.append_assoc] using this
   | ite c a b ihc iha ihb =>
     intro hw hn p
@@ -142,7 +142,7 @@ theorem lex_termW (hT : TextOK T L S) (uni : Bool) {sepB : List Nat → Nat → 
     refine ⟨?_, ?_⟩
     · have s5 := Steps.append kElse (Steps.cons_sepB (hB p 3) hb.1) (fun rest _ => notId_blank _)
       have s4 := Steps.append ha.1 (Steps.cons_sepF (hF p).2 s5) (fun rest _ => by
-        have := follow_sepF (hF p).1 (hF p).2 ((kwElse ++ 32 :: (sepB p 3 ++ printTextW T L uni sepB sepF (2 :: p) b)) ++ rest)
+        have := follow_sepF (hF p).1 (hF p).2 ((kwElse ++ 32 :: (sepB p 3 ++ printTextW T L S uni sepB sepF (2 :: p) b)) ++ rest)
         simpa [List.append_assoc] using this)
       have s3 := Steps.append kThen (Steps.cons_sepB (hB p 2) s4) (fun rest _ => notId_blank _)
       have s2 := Steps.append hc.1 (Steps.cons_sepB (hB p 1) s3) (fun rest _ => follow_blank _)
@@ -152,12 +152,62 @@ theorem lex_termW (hT : TextOK T L S) (uni : Bool) {sepB : List Nat → Nat → 
       simp only [printTextW, kwIf, List.cons_append, List.append_assoc]
       exact ts_head _ (Or.inl (by decide))
 
+  | ann t ty iht =>
+    intro hw hn p
+    have ht := iht hw hn.1 (0 :: p)
+    have hty := ty_lex hTy uni ty hn.2
+    have hL : Steps S [40] [.lp] (SafeAfter S [40]) := by
+      have := steps_symbol (S := S) (w := [40]) (by decide) hlp
+      simpa [tokOfTerminal] using this
+    have hR : Steps S [41] [.rp] Follow := rp_steps hrp hsafeR
+    have hC : Steps S [58, 58] [.sym L.dcolon] (fun _ => True) := dcolon_steps hdc
+    refine ⟨?_, fun rest => by simpa [printTextW] using ts_head (T := T) (c := 40) _ (Or.inr (Or.inr rfl))⟩
+    have h4 := Steps.append hty hR (fun rest _ => follow_rp rest)
+    have h3 := Steps.append hC h4 (fun _ _ => trivial)
+    have h2 := Steps.append ht.1 h3 (fun rest _ => follow_colon _)
+    have h1' := Steps.append hL h2 (fun rest _ => safe_beforeTerm hsafeL (by
+      have := ht.2 (([58, 58] ++ (printTyText L.ty S uni ty ++ [41])) ++ rest)
+      simpa [List.append_assoc] using this))
+    simpa [printTextW, printSkel, List.append_assoc] using h1'
+  | binderT b x ty body ihb =>
+    intro hw hn p
+    have hb := ihb hw.2 hn.2.2 (0 :: p)
+    have hty := ty_lex hTy uni ty hn.2.1
+    have hboth := hbind b hw.1
+    have hasc := (spell_steps (T := T) h1 hdot hboth.1).2
+    have hsp : Steps S (binderTxt T L uni b) [.sym (binderSpell T L uni b)] (AfterSym T false true) := by
+      cases uni
+      · exact (spell_steps h1 hdot hboth.1).1
+      · exact (spell_steps h1 hdot hboth.2).1
+    have hD : Steps S [46, 32] [.dot] (SafeAfter S [46, 32]) := by
+      have := steps_symbol (S := S) (w := [46, 32]) (by decide) hdotT
+      simpa [tokOfTerminal] using this
+    have hC : Steps S [58, 58] [.sym L.dcolon] (fun _ => True) := dcolon_steps hdc
+    obtain ⟨hxn, hxi⟩ := hn.1
+    refine ⟨?_, ?_⟩
+    · have h5 := Steps.append hD hb.1 (fun rest _ => safe_dot hsafeD _)
+      have h4 := Steps.append hty h5 (fun rest _ => follow_dot _)
+      have h3 := Steps.append hC h4 (fun _ _ => trivial)
+      have h2 := Steps.append (steps_name hxn) h3 (fun rest _ => by
+        intro c r hr; simp at hr; rw [← hr.1]; decide)
+      have h1' := Steps.append hsp h2 (fun rest _ => by
+        cases x with
+        | nil => simp [idShaped] at hxi
+        | cons c cs =>
+          simp only [idShaped, Bool.and_eq_true] at hxi
+          exact Or.inr (Or.inr ⟨rfl, c, _, rfl, hxi.1⟩))
+      simpa [printTextW, printSkel, List.append_assoc] using h1'
+    · intro rest
+      have := ts_binder (T := T) (binderTxt_mem hasc uni)
+        (x ++ 58 :: 58 :: (printTyText L.ty S uni ty ++ 46 :: 32 :: printTextW T L S uni sepB sepF (0 :: p) body) ++ rest)
+      simpa [printTextW, List.append_assoc] using this
+
 /-- the line-broken text lexes to the printer's tokens, hence to the same tokens as the unbroken text -/
 theorem broken_same_tokens_core (hT : TextOK T L S) (uni : Bool) {sepB : List Nat → Nat → List Nat} {sepF : List Nat → List Nat}
     (hsep : SepOK sepB sepF) (t : Skel) (hw : t.WF T L) (hn : t.NamesOK S) (p : List Nat) :
-    lex S (printTextW T L uni sepB sepF p t) = lex S (printText T L uni t) := by
+    lex S (printTextW T L S uni sepB sepF p t) = lex S (printText T L S uni t) := by
   rw [lex_print_core hT uni t hw hn]
-  have h := (lex_termW hT uni hsep t hw hn p).1 [] [] ((printTextW T L uni sepB sepF p t).length + 1) (Or.inl rfl) (by simp)
+  have h := (lex_termW hT uni hsep t hw hn p).1 [] [] ((printTextW T L S uni sepB sepF p t).length + 1) (Or.inl rfl) (by simp)
   obtain ⟨f', hf, he⟩ := h
   simp only [List.append_nil] at he
   unfold lex
